@@ -1,7 +1,9 @@
 package props
 
 import (
+	"encoding/json"
 	"fmt"
+	"os"
 	"reflect"
 	"sort"
 	"strings"
@@ -214,7 +216,11 @@ func abstractWorld(w *sim.World) worldAbs {
 		a.Relaxed[g] = strings.Join(l, " || ")
 	}
 	for _, jc := range w.API.JobConfigs() {
-		a.Strict["jobconfig "+jc.Name] = fmt.Sprintf("state=%s active=%d queued=%d lastScheduled=%v", jc.Status.State, jc.Status.Active, jc.Status.Queued, jc.Status.LastScheduled)
+		// lastScheduled / lastExecuted are derived from the Jobs the controller happened
+		// to see before they were deleted, which depends on processing order even
+		// without faults; their lower bound against the surviving Jobs is C15's
+		// quiescent check, which runs on B.
+		a.Strict["jobconfig "+jc.Name] = fmt.Sprintf("state=%s active=%d queued=%d", jc.Status.State, jc.Status.Active, jc.Status.Queued)
 		a.Relaxed["jobconfig "+jc.Name] = fmt.Sprintf("state=%s active=%d queued=%d", jc.Status.State, jc.Status.Active, jc.Status.Queued)
 		if w.Store != nil {
 			a.Counts[jc.Name] = w.Store.CountActiveJobsForConfig(jc)
@@ -264,7 +270,7 @@ func diffAbs(a, b worldAbs) string {
 	return strings.Join(out, "; ")
 }
 
-var c20Profile = e2Profile{name: "c20", maxJCs: 2, cron: true, lag: false, steps: 40,
+var c20Profile = e2Profile{name: "c20", maxJCs: 2, cron: true, lag: false, steps: 40, confluent: true,
 	weights: map[string]int{"settle": 0, "k-flap": 0, "requeueCron": 1}}
 
 // genC20 generates the workload against a live fault-free world; a "settle" is
@@ -307,25 +313,52 @@ func runC20(c C20Case) pbt.Result {
 	// A: fault-free
 	var absA []worldAbs
 	ra := newE2Run(&base, false)
-	for _, ph := range c.Phases {
+	debug := os.Getenv("VERIF_DEBUG") != ""
+	dbg := func(r *e2run, tag string) {
+		if debug {
+			r.w.API.OnEntry = append(r.w.API.OnEntry, func(e *sim.Entry) {
+				fmt.Printf("   %s ledger %s %s %s %s applied=%v removed=%v err=%.80s\n", tag, e.Actor, e.Verb, e.Res, e.Key, e.Applied, e.Removed, e.Err)
+			})
+		}
+	}
+	dbg(ra, "A")
+	for i, ph := range c.Phases {
 		for _, op := range ph {
+			if debug {
+				b, _ := json.Marshal(op)
+				fmt.Printf("A phase %d OP %s (clock %s)\n", i, b, ra.w.Clock.Now().UTC().Format("15:04:05.000"))
+			}
 			ra.apply(op)
+		}
+		if debug {
+			fmt.Printf("A phase %d SETTLE\n", i)
 		}
 		if !ra.settle() {
 			res.Labels = []string{"inconclusive-livelock"}
 			return res
 		}
 		absA = append(absA, abstractWorld(ra.w))
+		if debug {
+			ra.dump()
+		}
 	}
 	// B: the same phases, each settled under its fault pattern first
 	baseB := base
 	rb := newE2Run(&baseB, true)
 	rb.mon.props = nil
+	dbg(rb, "B")
 	hit := 0
 	for i, ph := range c.Phases {
 		rb.mon.opIndex = i
 		for _, op := range ph {
+			if debug {
+				b, _ := json.Marshal(op)
+				fmt.Printf("B phase %d OP %s (clock %s)\n", i, b, rb.w.Clock.Now().UTC().Format("15:04:05.000"))
+			}
 			rb.apply(op)
+		}
+		if debug {
+			fmt.Printf("B phase %d SETTLE under faults\n", i)
 		}
 		for j := range c.Faults[i] {
 			f := c.Faults[i][j]
@@ -341,7 +374,13 @@ func runC20(c C20Case) pbt.Result {
 			hit += f.Hits
 		}
 		rb.w.API.Faults = nil
+		if debug {
+			fmt.Printf("B phase %d SETTLE fault-free\n", i)
+		}
 		ok = ok && rb.settle()
+		if debug {
+			rb.dump()
+		}
 		if !ok {
 			res.Labels = []string{"inconclusive-livelock"}
 			return res
